@@ -179,6 +179,7 @@ fn long_variants(seed: &str, big: bool) -> Vec<Vec<u8>> {
 /// out-of-range references), and by markup-like text. Random byte mutations almost always break the
 /// structure first; these keep it intact.
 fn text_variants(seed: &str) -> Vec<Vec<u8>> {
+    const NASTY_BYTES: [&[u8]; 4] = [b"r\xe9seau", b"\xff", b"\xc3", b"\xed\xa0\x80"];
     const NASTY: [&str; 16] = [
         "a&b",
         "&nbsp;",
@@ -199,6 +200,23 @@ fn text_variants(seed: &str) -> Vec<Vec<u8>> {
     ];
     let b = seed.as_bytes();
     let mut out = vec![];
+    if let Some(gt) = seed.find('>') {
+        for c in [&b"<!-- r\xe9seau -->"[..], b"<!-- \xff\xfe -->", b"<!-- R&D lab, rack 4 &nbsp; -->", b"<!-- a -- b -->"] {
+            let mut v = b[..gt + 1].to_vec();
+            v.extend_from_slice(c);
+            v.extend_from_slice(&b[gt + 1..]);
+            out.push(v);
+            let mut v = c.to_vec();
+            v.extend_from_slice(b);
+            out.push(v);
+            if let Some(m) = seed.rfind("]]>]]>") {
+                let mut v = b[..m].to_vec();
+                v.extend_from_slice(c);
+                v.extend_from_slice(&b[m..]);
+                out.push(v);
+            }
+        }
+    }
     let mut i = 0;
     while i < b.len() {
         if b[i] == b'>' && i + 1 < b.len() && b[i + 1] != b'<' && b[i + 1] != b']' {
@@ -207,6 +225,12 @@ fn text_variants(seed: &str) -> Vec<Vec<u8>> {
             for t in NASTY {
                 let mut v = b[..start].to_vec();
                 v.extend_from_slice(t.as_bytes());
+                v.extend_from_slice(&b[end..]);
+                out.push(v);
+            }
+            for t in NASTY_BYTES {
+                let mut v = b[..start].to_vec();
+                v.extend_from_slice(t);
                 v.extend_from_slice(&b[end..]);
                 out.push(v);
             }
@@ -301,7 +325,10 @@ pub fn main(opts: &Opts) {
     for ((kind, bytes), out) in jobs.iter().zip(results) {
         let case = format!("reply;{kind};{}", hex(bytes));
         let class = out.split(':').next().unwrap().to_string();
+        // a message that is not valid UTF-8 is not a well-formed document: never a value
+        let not_text = std::str::from_utf8(bytes).is_err();
         let verdict = match class.as_str() {
+            "ok" | "data" | "rpcerr" if not_text => format!("violation {class}-from-a-reply-that-is-not-utf8"),
             "ok" | "data" | "rpcerr" | "err" => "ok".to_string(),
             other => format!("violation {other}-on-garbage-reply"),
         };
@@ -375,7 +402,9 @@ pub fn main(opts: &Opts) {
         let class = out.split(' ').next().unwrap().to_string();
         sink.direct(
             &case,
-            if class == "ok" || class == "err" {
+            if class == "ok" && std::str::from_utf8(bytes).is_err() {
+                "violation session-established-from-a-hello-that-is-not-utf8".into()
+            } else if class == "ok" || class == "err" {
                 "ok".into()
             } else {
                 format!("violation {class}-on-garbage-hello")
